@@ -722,6 +722,13 @@ pub struct TargetInner {
     /// First update for which the library's `PayloadUpdate for Vec` collected
     /// something else than what was pushed.
     pub lib_vec_mismatch: Option<String>,
+    /// Set while a router drives `Client::run()`: called at the end of every
+    /// successful `apply`, returns (octets the client has consumed from its
+    /// connection, number of source calls logged). Together with a copy of
+    /// the data it lets the steps completed inside `run()` be judged one by
+    /// one afterwards.
+    pub mark_fn: Option<Box<dyn Fn() -> (usize, usize) + Send>>,
+    pub marks: Vec<(usize, usize, DataSet)>,
 }
 
 impl TargetInner {
@@ -897,6 +904,11 @@ impl PayloadTarget for ModelTarget {
             duplicate_announce: dup,
             unknown_withdraw: unk,
         });
+        let mark = t.mark_fn.as_ref().map(|f| f());
+        if let Some((n_read, calls)) = mark {
+            let data = t.data.clone();
+            t.marks.push((n_read, calls, data));
+        }
         Ok(())
     }
 }
